@@ -184,7 +184,8 @@ Definition run_best_case (t : Z) (req : nat) (hole board : list Z) : obs :=
   ("ncomb"%string, [zn (length cs)]) ::
   match best_power (table_of_code t) (map card_of_wire board) (map card_of_wire hole) req with
   | None => [("none"%string, [1])]
-  | Some p => obs_power p
+  | Some p => if Nat.leb (length cs) 12 then obs_power p
+              else [("ctype"%string, [comb_code (ps_comb p)]); ("cpower"%string, [ps_score p]); ("ccards"%string, [])]
   end.
 
 (* combos case: the raw enumeration *)
